@@ -2,6 +2,7 @@ import PwVerif.Proofs.Cache
 import PwVerif.Proofs.CacheTree
 import PwVerif.Proofs.CacheForest
 import PwVerif.Proofs.CacheFetch
+import PwVerif.Proofs.CacheFetchTree
 /-!
 # C05 — Caching is transparent: a run served from cache equals a real run
 
@@ -397,6 +398,23 @@ example : ∀ o ∈ forestOps, OpOk natSem o := by
   · exact conservative_atPathC natSem false _ (fun k hk => harmless_setIn natSem 3 1 (.val 6) k hk) 1 []
   · trivial
 
+/-- `replace_child` by an instance that has a run history (its own remembered input, any output): the replacement
+takes over the old node's channels and its input cache is dropped — admissible like a fresh node -/
+theorem C05_forest_replace_used_harmless {ρ : Type} (S : Sem ρ) (l cls : Nat) (ins : List Src) (o : ρ) (kids : Kids ρ)
+    (hv : ValidKids S kids) : ValidKids S (removeKidC l kids ++ [(l, .leaf cls ins o none)]) :=
+  harmless_replace_used S l cls ins o kids hv
+
+/-- … and dropping it is necessary (seeded change C05-5): a replacement of class 19 that was run stand-alone before
+with the input 7 it now takes over, and keeps that memory next to the OLD node's output, answers from its cache with
+the old node's result -/
+theorem C05_replace_keeps_cache_witness :
+    let r0 : Root Nat := { kids := [(1, freshLeaf natSem 10 [.val 7])], cache := none }
+    let swap : Kids Nat → Kids Nat := fun ks => removeKidC 1 ks ++ [(1, .leaf 19 [.val 7] (outAt natSem 1 ks) (some [7]))]
+    (runOpsC natSem KCfg.now 4 r0 [.run, .structural swap, .run]).map (fun p => p.2.map Root.outs)
+      = some [[(1, 10008)], [(1, 10008)]] ∧
+    evalP natSem 4 [] [(1, .leaf 19 [.val 7])] 1 = some 19008 := by
+  decide
+
 end Forest
 
 /-! ## a composite hit and the values held by connected inputs (`PwVerif.CacheFetch`, finding KF-C05-7) -/
@@ -434,6 +452,42 @@ example : (PwVerif.CacheFetch.runOps fetchF 0 true true { body := fetchBody, cac
     = (PwVerif.CacheFetch.runOps fetchF 0 true false { body := fetchBody, cache := none } fetchOps).2 := by decide
 
 end Fetch
+
+/-! ## … over the nested tree (`PwVerif.CacheFetchTree`): the re-fetch must reach every level -/
+section FetchTree
+open PwVerif.CacheFetchTree
+
+/-- with a DEEP re-fetch (what /repo does): the cached graph and its cache-free twin stay in the SAME state at EVERY
+depth, channel values included, for every history of assignments to any input channel at any depth (connected,
+linked or free), disconnections at any depth, and runs -/
+theorem C05_fetch_tree_transparent {ρ : Type} [DecidableEq ρ] (F : Nat → List ρ → ρ) (nd : ρ) (body : List (Nd ρ))
+    (ops : List (PwVerif.CacheFetchTree.Op ρ)) :
+    (PwVerif.CacheFetchTree.runOps F nd true true true { body := body, cache := none } ops).2 =
+      (PwVerif.CacheFetchTree.runOps F nd true true false { body := body, cache := none } ops).2 ∧
+    (PwVerif.CacheFetchTree.runOps F nd true true true { body := body, cache := none } ops).1.body =
+      (PwVerif.CacheFetchTree.runOps F nd true true false { body := body, cache := none } ops).1.body := by
+  obtain ⟨h1, h2⟩ := PwVerif.CacheFetchTree.runOps_sim F nd ops { body := body, cache := none }
+    { body := body, cache := none } ⟨rfl, by simp⟩
+  exact ⟨h1, h2.body⟩
+
+/-- workflow ⊃ macro 1 (input 7, exposes 12) with chained children 11 (linked to the macro input) → 12; child 2 fed by
+the macro -/
+def nestBody : List (Nd Nat) :=
+  [.comp 1 12 [.free 7] [.leaf 11 1 [.link 0 0] 0, .leaf 12 2 [.conn 11 0] 0] 0, .leaf 2 3 [.conn 1 0] 0]
+/-- run; hand-assign 99 to the CONNECTED input of grandchild 12; run (outer hit); cut that connection; run -/
+def nestOps : List (PwVerif.CacheFetchTree.Op Nat) := [.run, .assign [1] 12 0 99, .run, .disconnect [1] 12 0, .run]
+
+/-- a SHALLOW re-fetch (direct children only — seeded change C05-6) lets the hand-assigned value of a grandchild
+survive the outer hit: after the disconnection the cached graph computes from 99, the twin from 11's output -/
+theorem C05_fetch_shallow_witness :
+    (PwVerif.CacheFetchTree.runOps fetchF 0 true false true { body := nestBody, cache := none } nestOps).2 ≠
+    (PwVerif.CacheFetchTree.runOps fetchF 0 true false false { body := nestBody, cache := none } nestOps).2 := by
+  decide
+
+example : (PwVerif.CacheFetchTree.runOps fetchF 0 true true true { body := nestBody, cache := none } nestOps).2
+    = (PwVerif.CacheFetchTree.runOps fetchF 0 true true false { body := nestBody, cache := none } nestOps).2 := by decide
+
+end FetchTree
 end PwVerif.C05
 
 #print axioms PwVerif.C05.C05_transparent
@@ -470,3 +524,7 @@ end PwVerif.C05
 #print axioms PwVerif.C05.C05_forest_setin_root
 #print axioms PwVerif.C05.C05_fetch_transparent
 #print axioms PwVerif.C05.C05_fetch_current_witness
+#print axioms PwVerif.C05.C05_forest_replace_used_harmless
+#print axioms PwVerif.C05.C05_replace_keeps_cache_witness
+#print axioms PwVerif.C05.C05_fetch_tree_transparent
+#print axioms PwVerif.C05.C05_fetch_shallow_witness
